@@ -1,6 +1,15 @@
 HOOK_COMMITS = ["91ffc11"]
 NOT_APPLICABLE = {}
 ENTRIES = {
+    "C20": {
+        "text": "Theorems for every request (version, Host header, authority, TLS info, server name over arbitrary strings): "
+                "the model of sni::handle forwards a TLS request naming a host iff the server name equals that host "
+                "case-insensitively ignoring the port, marks it validated, rejects mismatches and missing SNI, never rejects a "
+                "match; model tied to the public ValidateSNI layer by differential runs. Two genuine defects found and fixed.",
+        "note": "Trusted: Lean kernel (propext, Quot.sound, Classical.choice at most); http crate's Authority parser (host/port split) "
+                "is assumed; correspondence is sampled.",
+        "design_ref": "DESIGN.md §5 C20",
+    },
     "C16": {
         "text": "Theorems for every address list, preference and port: the model of sort_preferred equals the specification "
                 "(first preferred-family address, first other-family address, rest in order), is a permutation, carries the "
